@@ -62,6 +62,24 @@ def chk_routes(c):
         x = tuple(grid[d][I[d]] for d in range(sdim))
         v = f(*reversed(x))
         assert np.allclose(v, V[I], rtol=1e-11, atol=1e-11), 'single-point evaluation differs from grid evaluation at %r' % (x,)
+    # the call route with array arguments is the tensor grid over them; exactly the axes of SCALAR arguments are dropped (an array of
+    # length 1 is still an array: its axis stays)
+    for trial in range(4):
+        kindsel = [(trial + d) % 3 for d in range(sdim)]            # 0: scalar, 1: array of length 1, 2: array of length 3
+        args, axes, drop = [], [], []
+        for d in range(sdim):
+            g = grid[d]
+            if kindsel[d] == 0:
+                args.append(float(g[1])); axes.append(np.array([g[1]])); drop.append(d)
+            elif kindsel[d] == 1:
+                args.append(np.array([g[2]])); axes.append(np.array([g[2]]))
+            else:
+                args.append(np.array(g[:3])); axes.append(np.array(g[:3]))
+        want = f.grid_eval(axes).squeeze(axis=tuple(drop))
+        got = np.asarray(f(*reversed(args)))
+        assert got.shape == want.shape, 'f(*x) with (zyx) arguments %r has shape %r, the grid over them has %r' % (
+            [['scalar', 'array of length 1', 'array of length 3'][k] for k in kindsel], got.shape, want.shape)
+        assert np.allclose(got, want, rtol=1e-11, atol=1e-11), 'f(*x) with array arguments differs from the grid evaluation'
     # scattered points (xyz order)
     P = np.array([[grid[d][I[d]] for d in range(sdim)] for I in idxs[:15]])      # rows: points, columns: knot-vector order
     pts = tuple(P[:, sdim - 1 - k] for k in range(sdim))                          # xyz order
